@@ -7,7 +7,7 @@
    direction (Full => every value reads) is FALSE of the faithful model: refutation witnesses below,
    each a known finding replayed on the implementation. *)
 From AvroV Require Import Base Varint Schema Bytes Names Floats Codec Conforms Validate SingleObject Resolve Resolution Compat.
-From AvroV Require Import BytesP C08P C09P.
+From AvroV Require Import BytesP C08P C09P C09S.
 Open Scope N_scope.
 
 Definition prims : list schema := [SNull; SBoolean; SInt; SLong; SFloat; SDouble; SBytes; SString].
@@ -70,11 +70,24 @@ Theorem C09_reader_union_branch_added :
     union_reader cr (l ++ [b]) false false = Ok CFull \/ union_reader cr (l ++ [b]) false false = OutOfFuel.
 Proof. intros cr b l Hnp. apply union_reader_add_branch. exact Hnp. Qed.
 
+(* Soundness on a fragment (Proofs/C09S.v): writer and reader built from the eight primitive types,
+   arrays, maps, fixed, enums (a reader default, if any, is one of the reader's symbols) and records
+   (reader field names distinct, no reader aliases, every reader field present in the writer), with
+   the pair bytes -> string excluded.  There a Full verdict is sound at every depth and size: every
+   value the writer schema accepts resolves under the reader schema.  The refutations below are all
+   outside this fragment (logical types, bytes -> string, aliases); unions and defaults are not in it. *)
+Theorem C09_full_sound_fragment :
+  forall fuel W R v fc c nmz ens c' nmz' ens',
+    frag fuel W R = true -> can_read fuel W R = Ok CFull -> conforms fc c nmz ens W v = true ->
+    exists v', resolve fuel c' nmz' ens' R v = Ok v'.
+Proof. exact full_verdict_sound. Qed.
+
 (* The soundness direction fails on the faithful model: Full verdicts whose reads fail. *)
 Definition cfg0 : cfg := mkCfg 4096 56 80.
 Definition nm (s : list N) : name := mkName None s.
 Definition fld (n : list N) (al : list (list N)) : fmeta := mkFmeta n None al None [].
 Definition rd (R : schema) (v : value) := resolve 8 cfg0 [] None R v.
+Definition rd' (R : schema) (v : value) := resolve 6 cfg0 [] None R v.
 
 Example C09_full_unsound_refuted :
   (* a date read as a long (F45), bytes that are not UTF-8 read as a string, a decimal read as bytes *)
@@ -96,4 +109,15 @@ Example C09_examples :
   schema_wfb W = true /\ can_read 4 W W = Ok CFull /\ can_read 4 W R = Ok CFull /\
   mutual_read 4 W R = Err /\ mutual_read 4 R W = Err /\
   can_read 4 (SUnion [SNull; SInt]) (SUnion [SInt]) = Ok CPartial.
+Proof. repeat split; vm_compute; reflexivity. Qed.
+
+Example C09_fragment_example :
+  let E  := SEnum (nm [69]) None None [[65]; [66]] None [] in
+  let E' := SEnum (nm [69]) None None [[66]; [65]; [67]] (Some [67]) [] in
+  let W := SRecord (nm [82]) None None [(fld [97] [], SInt); (fld [98] [], SArray E []); (fld [99] [], SMap SFloat [])] [] in
+  let R := SRecord (nm [82]) None None [(fld [98] [], SArray E' []); (fld [97] [], SLong)] [] in
+  let v := VRecord [([97], VInt 5); ([98], VArray [VEnum 1 [66]; VEnum 0 [65]]); ([99], VMap [([107], VFloat 0)])] in
+  frag 6 W R = true /\ can_read 6 W R = Ok CFull /\ conforms 6 cfg0 [] None W v = true /\
+  rd' R v = Ok (VRecord [([98], VArray [VEnum 0 [66]; VEnum 1 [65]]); ([97], VLong 5)]) /\
+  frag 6 SBytes SString = false /\ frag 6 SDate SLong = false.
 Proof. repeat split; vm_compute; reflexivity. Qed.
